@@ -477,6 +477,7 @@ void verif_time_limit(long long minT, long long maxT, int early, long long start
     e.start = start;
     e.tid = vsim::self();
     e.mainTicks = g_mainTicks;
+    e.allTicks = g_allTicks;
     H->limits.push_back(e);
 }
 
